@@ -445,13 +445,28 @@ func propOne(c Case) error {
 	before := c.P
 	for vi, idx := range variants {
 		in := [4]geom.Coord{coi(c, idx[0]), coi(c, idx[1]), coi(c, idx[2]), coi(c, idx[3])}
+		// end points that coincide are, in every other variant, one and the same slice
+		// (what ls.Coord(i) passed twice is): the answer is that of the values
+		if vi%2 == 1 {
+			for k := 1; k < 4; k++ {
+				for m := 0; m < k; m++ {
+					if c.P[idx[k]] == c.P[idx[m]] && len(in[k]) == len(in[m]) {
+						in[k] = in[m]
+					}
+				}
+			}
+		}
+		var handed [4]geom.Coord
+		for k := range in {
+			handed[k] = in[k].Clone()
+		}
 		r := lineintersector.LineIntersectsLine(lineintersector.RobustLineIntersector{}, in[0], in[1], in[2], in[3])
 		what := fmt.Sprintf("robust, variant %d %v of %v", vi, idx, show(c))
 		// (the points reported may alias the coordinates handed in - a collinear overlap is
 		// reported as the endpoint slices themselves; no statement says otherwise, so the
 		// result is only read here, never written)
 		for k := range in {
-			want := coi(c, idx[k])
+			want := handed[k]
 			if len(in[k]) != len(want) {
 				return fmt.Errorf("%s: argument %d now has %d ordinates, had %d", what, k, len(in[k]), len(want))
 			}
